@@ -134,7 +134,7 @@ pub fn run(ctx: &Ctx) -> Report {
         }
     }
     if ctx.miri {
-        payloads.truncate(20);
+        payloads.truncate(10);
     }
     let per = 32usize;
     let pl = &payloads;
@@ -171,7 +171,7 @@ pub fn run(ctx: &Ctx) -> Report {
         }
     }
     if ctx.miri {
-        streams.truncate(20);
+        streams.truncate(10);
     }
     let st = &streams;
     let r = par_cases(ctx, "C20", "short-streams", ((streams.len() + per - 1) / per) as u64, |_rng, i, rep| {
@@ -334,6 +334,21 @@ pub fn run(ctx: &Ctx) -> Report {
             muts.push(M { what: format!("execute block for {} parameters: {}", np, bname), case: c });
         }
     }
+    // valid UTF-8 text with a multi-byte character starting at every offset 0..10 (string slicing at
+    // fixed byte offsets must not assume ASCII)
+    for ch in ["\u{e9}", "\u{20ac}", "\u{1F600}", "\u{6570}"] {
+        for off in 0..10usize {
+            for (cmd, name) in [(wire::COM_QUERY, "query"), (wire::COM_STMT_PREPARE, "prepare"), (wire::COM_INIT_DB, "init_db")] {
+                for prefix in ["", "USE", "use ", "SELECT @", "SELECT @@", "sel"] {
+                    let mut t = String::from(prefix);
+                    t.push_str(&"a".repeat(off));
+                    t.push_str(ch);
+                    t.push_str("bc");
+                    muts.push(M { what: format!("multi-byte character in {} text", name), case: conv_with(wire::com_text(cmd, t.as_bytes()), 0, false) });
+                }
+            }
+        }
+    }
     // zero-length packets in various places
     for n in 1..4 {
         let mut c = Case::new(vec![Cmd::ping()], vec![]);
@@ -408,7 +423,7 @@ pub fn run(ctx: &Ctx) -> Report {
     }
     if ctx.miri {
         // Miri costs ~1 s per command: keep a seeded sample of ~40 mutations
-        let k = (muts.len() / 40).max(1);
+        let k = (muts.len() / 25).max(1);
         let off = (ctx.seed as usize) % k;
         muts = muts.into_iter().enumerate().filter(|(i, _)| i % k == off).map(|(_, m)| m).collect();
     }
